@@ -12,7 +12,10 @@ Definition type_max (s : csrc) (k : ckey) : Z :=
   match k with
   | CPort | CHealth => 65535                      (* u16 *)
   | CBatch | CFault => 255                        (* u8 *)
-  | CWorkers => 18446744073709551615              (* usize *)
+  | CWorkers => match s with
+                | File => 9223372036854775807     (* i64 from YAML (a wider literal is not a YAML integer), then usize *)
+                | Env => 18446744073709551615     (* usize *)
+                end
   | CStatus => match s with
                | File => 9223372036854775807      (* i64 from YAML, then u64 *)
                | Env => 65535                     (* parsed as u16 *)
@@ -48,7 +51,7 @@ Definition in_range (s : csrc) (k : ckey) (z : Z) : bool :=
   | CPort => (1 <=? z) && (z <=? 65535)
   | CBatch => (1 <=? z) && (z <=? 64)
   | CFault => (0 <=? z) && (z <=? 50)
-  | CWorkers => (1 <=? z) && (z <=? 18446744073709551615)
+  | CWorkers => (1 <=? z) && (z <=? type_max s CWorkers)  (* no documented upper bound: the type's *)
   | CStatus => (0 <=? z) && (z <=? type_max s CStatus)   (* no documented bound: the type's *)
   | CHealth => (0 <=? z) && (z <=? 65535)
   end.
